@@ -23,6 +23,7 @@ SQL_MACRO = {'vtl': 'vtl_period_to_vtl', 'sdmx_reporting': 'vtl_period_to_sdmx_r
 PY_METH = {'vtl': 'vtl_representation', 'sdmx_reporting': 'sdmx_reporting_representation',
            'sdmx_gregorian': 'sdmx_gregorian_representation', 'natural': 'natural_representation'}
 K_PAD = 'TimePeriodHandler.__str__:year below 1000 is not zero-padded (Python) while SQL keeps four digits'
+K_STRP = 'period_to_date:year below 1000: strptime on the unpadded year fails, so daily periods cannot be rendered as dates (Python)'
 K_GREG = 'apply_time_period_representation:sdmx_gregorian on S/Q/W escapes as a raw duckdb error, not a VTL error'
 
 
@@ -88,7 +89,7 @@ def three_way(ck, con, per, label):
     """Lean vs Python vs SQL on every spelling / rendering of the given periods."""
     from vtlengine.DataTypes.TimeHandling import TimePeriodHandler
     req = ['L %s %d %d' % p for p in per] + ['R %s %d %d' % p for p in per]
-    ans = ck.driver('Time', req)
+    ans = tc.driver(ck, req)
     spell = [a.split(' ') for a in ans[:len(per)]]
     rend = [a.split(' ') for a in ans[len(per):]]
     # 1. every spelling and every rendering normalises to the canonical form — in Lean, Python and SQL
@@ -96,7 +97,7 @@ def three_way(ck, con, per, label):
     for p, sp, rd in zip(per, spell, rend):
         for s in dict.fromkeys(sp + [x for x in rd[:4] if x != '!']):
             strings.append(s); owner.append((p, rd[4]))
-    lean = ck.driver('Time', ['X ' + s for s in strings])
+    lean = tc.driver(ck, ['X ' + s for s in strings])
     sqln = sql_map(con, 'vtl_period_normalize', strings)
     seen = set()
 
@@ -134,6 +135,8 @@ def three_way(ck, con, per, label):
                 py = 'ERR:' + type(e).__name__
             if py != exp:
                 if p[1] < 1000 and py == unpad(exp): report(K_PAD, {'input': canons[k], 'format': fmt, 'python': py, 'sql': g, 'expected': exp}, 'TimePeriodHandler(%r).%s() = %r' % (canons[k], PY_METH[fmt], py))
+                elif p[1] < 1000 and p[0] == 'D' and py == 'ERR:ValueError' and fmt in ('sdmx_gregorian', 'natural'):
+                    report(K_STRP, {'input': canons[k], 'format': fmt, 'python': py, 'sql': g, 'expected': exp}, 'TimePeriodHandler(%r).%s() raises ValueError' % (canons[k], PY_METH[fmt]))
                 else: report('TimePeriodHandler.%s:%s:rendering differs from the documented format' % (PY_METH[fmt], p[0]),
                              {'method': PY_METH[fmt], 'input': canons[k], 'got': py, 'expected': exp}, 'TimePeriodHandler(%r).%s() = %r, expected %r' % (canons[k], PY_METH[fmt], py, exp))
         ck.count((label, fmt, len(idx)), n=2 * len(idx))
@@ -145,7 +148,7 @@ def three_way(ck, con, per, label):
 def gregorian_unsupported(ck, con):
     """S, Q, W under sdmx_gregorian: both implementations must raise the VTL error 2-1-19-21 (never a value)."""
     from vtlengine.DataTypes.TimeHandling import TimePeriodHandler
-    ans = ck.driver('Time', ['R %s 2020 1' % i for i in tc.INDS])
+    ans = tc.driver(ck, ['R %s 2020 1' % i for i in tc.INDS])
     for i, a in zip(tc.INDS, ans):
         lean_err = a.split(' ')[2] == '!'
         c = tc.canon(i, 2020, 1)
@@ -169,7 +172,7 @@ def docs_check(ck, con):
     """The examples and the output table of the documentation against Lean, Python and SQL."""
     inputs, outputs = docs_tables()
     ex = [(i, e) for i, es in inputs.items() for e in es]
-    lean = ck.driver('Time', ['X ' + e for _, e in ex])
+    lean = tc.driver(ck, ['X ' + e for _, e in ex])
     sqln = sql_map(con, 'vtl_period_normalize', [e for _, e in ex])
     for (i, e), l, q in zip(ex, lean, sqln):
         ck.count(('docs-example', e))
@@ -187,31 +190,30 @@ def docs_check(ck, con):
                              'documented example %r: Python %s, SQL %r' % (e, pn, q))
             else:
                 ck.unproved('docs:input-spelling:%s' % e, 'documented example %r is accepted by the code (%s) but not by the model Spelling.parse' % (e, pn))
-    # output table: every cell is what `render` produces for the period of the sdmx_reporting cell
-    rep = outputs['sdmx_reporting']
-    lean = ck.driver('Time', ['X ' + s for s in rep])
-    for col, (s, l) in enumerate(zip(rep, lean)):
+    # output table: every cell is what `render` produces, in that format, for the period the cell denotes
+    cells = [(fmt, col, cell) for fmt, cs in outputs.items() for col, cell in enumerate(cs)]
+    readable = [c for c in cells if c[2] != 'Not supported']
+    lean = tc.driver(ck, ['X ' + c[2] for c in readable])
+    pers = []
+    for (fmt, col, cell), l in zip(readable, lean):
         m = re.search(r'parse=(\w) (\d+) (\d+)', l)
-        if not m: state['model_bad'].append(('docs-output', s, l, 'parse')); continue
-        r = ck.driver('Time', ['R %s %s %s' % m.groups()])[0].split(' ')
-        for fmt, cells in outputs.items():
-            cell = cells[col]
-            # the documentation mixes example periods between rows (2020M1 / 2020-M01 / 2020-01): compare shapes through parse
-            if cell == 'Not supported':
-                if r[FMT_COL[fmt]] != '!': state['model_bad'].append(('docs-output', fmt, r[FMT_COL[fmt]], cell))
-                continue
-            l2 = ck.driver('Time', ['X ' + cell])[0]
-            m2 = re.search(r'parse=(\w) (\d+) (\d+)', l2)
-            if not m2: state['model_bad'].append(('docs-output', fmt, cell, 'not parsed')); continue
-            r2 = ck.driver('Time', ['R %s %s %s' % m2.groups()])[0].split(' ')
-            ck.count(('docs-output', fmt, col))
-            if r2[FMT_COL[fmt]] != cell:
-                state['model_bad'].append(('docs-output', fmt, r2[FMT_COL[fmt]], cell))
+        if not m or m.group(1) != 'ASQMWD'[col]:
+            state['model_bad'].append(('docs-output', (fmt, cell), l, 'a %s period' % 'ASQMWD'[col]))
+        pers.append(m.groups() if m else ('A', '2020', '1'))
+    rr = tc.driver(ck, ['R %s %s %s' % p for p in pers])
+    for (fmt, col, cell), r in zip(readable, rr):
+        ck.count(('docs-output', fmt, col))
+        if r.split(' ')[FMT_COL[fmt]] != cell:
+            state['model_bad'].append(('docs-output', (fmt, cell), r.split(' ')[FMT_COL[fmt]], cell))
+    rr = tc.driver(ck, ['R %s 2020 1' % i for i in tc.INDS])
+    for fmt, col, cell in cells:
+        if (cell == 'Not supported') != (rr[col].split(' ')[FMT_COL[fmt]] == '!'):
+            state['model_bad'].append(('docs-output', (fmt, 'ASQMWD'[col]), rr[col].split(' ')[FMT_COL[fmt]], cell))
 
 
 def e2e(ck, n_cases):
     import time_e2e
-    ds = time_e2e.run_e2e(ck, ck.rng, n_cases, years=tc.BOUNDARY_YEARS, ops=['format_roundtrip'])
+    ds = time_e2e.run_e2e(tc.DriverProxy(ck), ck.rng, n_cases, years=tc.BOUNDARY_YEARS, ops=['format_roundtrip'])
     for d in ds:
         if d['predicate'] == 'raw-error' and d['got'] and d['got'][0] == 'Timeout': continue
         fmt = d['params'].get('fmt')
@@ -228,7 +230,7 @@ def spellings_through_run(ck, per):
     """Every documented spelling as input datapoints of a real run(); the output must be the period's rendering."""
     import eng, pandas as pd
     from vtlengine import run
-    ans = ck.driver('Time', ['L %s %d %d' % p for p in per] + ['R %s %d %d' % p for p in per])
+    ans = tc.driver(ck, ['L %s %d %d' % p for p in per] + ['R %s %d %d' % p for p in per])
     rows = [(s, r.split(' ')[1]) for a, r in zip(ans[:len(per)], ans[len(per):]) for s in dict.fromkeys(a.split(' '))]
     ds = eng.structure('DS_1', [eng.comp('Id_1', 'Integer', 'Identifier'), eng.comp('Me_1', 'Time_Period', 'Measure')])
     df = pd.DataFrame({'Id_1': list(range(len(rows))), 'Me_1': [s for s, _ in rows]})
